@@ -28,6 +28,12 @@ fn check_step(s: &[u8], ih: bool, ic: bool) {
     let mut t = with_state(s, ih, ic);
     let got = t.next();
     let left = t.chars.as_slice().len();
+    compare(s, &rf, got, left, state(&t));
+}
+
+/// The comparison itself: `s` is the input the step started from, `left` what the real lexer
+/// has left of it, `st` the real lexer's state after the step.
+fn compare(s: &[u8], rf: &Lex, got: Option<Result<Token, ErrorCode>>, left: usize, st: (bool, bool)) {
     // C01: consumption never goes backwards / beyond
     assert!(left <= s.len(), "C01/Tokenizer::next/cursor-stays-inside-the-input");
     match got {
@@ -43,7 +49,7 @@ fn check_step(s: &[u8], ih: bool, ic: bool) {
             assert!(!rf.none && rf.err == 0, "C04/Tokenizer::next/malformed-element-is-not-silently-accepted");
             assert!(left < s.len(), "C01/Tokenizer::next/a-token-strictly-consumes-input");
             assert!(s.len() - left == rf.used, "C04/Tokenizer::next/consumes-exactly-the-element-and-its-trailing-white-space");
-            assert!(state(&t) == (rf.hdr, rf.com), "C04/Tokenizer::next/header-and-common-state-follow-488.2");
+            assert!(st == (rf.hdr, rf.com), "C04/Tokenizer::next/header-and-common-state-follow-488.2");
             let ok = match tok {
                 Token::HeaderMnemonicSeparator => rf.kind == 0,
                 Token::HeaderQuerySuffix => rf.kind == 1,
@@ -311,3 +317,70 @@ long_element!(long_mnemonic, b'V', b'V', true, -112, "C04/Tokenizer::next/258-ch
 long_element!(long_character, b'V', b'V', false, -144, "C04/Tokenizer::next/258-character-character-datum-is-144");
 long_element!(long_suffix, b'1', b' ', false, -134, "C04/Tokenizer::next/258-character-suffix-is-134");
 long_element!(long_common, b'*', b'V', true, -112, "C04/Tokenizer::next/258-character-common-mnemonic-is-112");
+
+
+/// Token STREAMS: the real lexer runs over a whole program message carrying its own state from
+/// element to element, the reference carries the two flags of the step contract.  Every step
+/// must agree, so the step function depends on nothing but (rest of input, in_header,
+/// in_common) — state that leaks from one element into the next (a stale flag, a new hidden
+/// field) shows up here.  The messages are every ordered pair of element forms (concrete
+/// representatives of every data kind, and of every header shape around `;`).
+fn check_stream(s: &[u8]) {
+    let mut t = Tokenizer::new(s);
+    let mut pos = 0usize;
+    let (mut ih, mut ic) = (true, false);
+    let mut k = 0;
+    while k < 10 {
+        let rest = &s[pos..];
+        let rf = ref_lex(rest, ih, ic);
+        let got = t.next();
+        let left = t.chars.as_slice().len();
+        let stop = !matches!(got, Some(Ok(_)));
+        compare(rest, &rf, got, left, state(&t));
+        if stop || rf.none || rf.err != 0 {
+            return;
+        }
+        assert!(t.chars.as_slice().as_ptr() == s[pos + rf.used..].as_ptr(), "C04/Tokenizer::next/continues-exactly-after-the-element");
+        pos += rf.used;
+        ih = rf.hdr;
+        ic = rf.com;
+        k += 1;
+    }
+    assert!(false, "C01/Tokenizer::next/a-short-message-has-a-short-token-stream");
+}
+
+fn put(buf: &mut [u8; 32], n: &mut usize, seg: &[u8]) {
+    let mut i = 0;
+    while i < seg.len() {
+        buf[*n] = seg[i];
+        *n += 1;
+        i += 1;
+    }
+}
+
+macro_rules! stream {
+    ($name:ident, $text:expr) => {
+        #[kani::proof]
+        #[kani::unwind(12)]
+        #[kani::stub(lexical_core::parse, stub_parse_len)]
+        #[kani::stub(lexical_core::parse_partial_with_options, stub_parse_partial_radix)]
+        pub fn $name() {
+            check_stream($text);
+        }
+    };
+}
+// every data kind, then `,` and a further element
+stream!(stream_after_character, b"A B,C");
+stream!(stream_after_decimal, b"A 1,C");
+stream!(stream_after_suffix, b"A 1 V,C");
+stream!(stream_after_nondecimal, b"A #H1F,C");
+stream!(stream_after_string, b"A 's',\"t\"");
+stream!(stream_after_block, b"A #12ab,C");
+stream!(stream_after_expression, b"A (1),C");
+// every header shape, then `;` and a compound / common header
+stream!(stream_unit_plain, b"A;:B:C");
+stream!(stream_unit_common, b"*A;:B:C");
+stream!(stream_unit_query, b"A?;*B");
+stream!(stream_unit_common_query, b"*A?;B:C?");
+stream!(stream_unit_data, b"A 1;:B:C");
+stream!(stream_unit_common_data, b"*A 1;B:C 2");
